@@ -568,5 +568,6 @@ func suiteC18(c *ctx) {
 		n := r.Range(300000, 500000)
 		wc = append(wc, &WCase{Prop: "C18", ID: fmt.Sprintf("C18-refs%d", i), Set: s, Datas: []DataSpec{{Gen: "refs", Seed: r.U64(), N: n}}, Ops: []Op{{K: "w", N: n}, {K: "c"}}})
 	}
+	wc = append(wc, tailCases(r, "C18", c.n(40))...)
 	parallelJ(len(wc), func(i int) interface{} { return wc[i] }, func(i int) { checkHistory(c.rep, c.pool, wc[i]) })
 }
